@@ -420,11 +420,9 @@ def cases(draw, kind, precision, tdtypes):
 
 
 @st.composite
-def auto_cases(draw, precision, tdtypes):
+def auto_cases(draw, precision, tdtypes, kind, amax):
     seed64 = draw(st.integers(0, 2 ** 63))
     g = np.random.Generator(np.random.PCG64(seed64))
-    kind = draw(st.sampled_from(['anova', 'nicv', 'snr', 'mia', 'tbuild']))
-    amax = draw(st.sampled_from([0, 1, 7, 8, 9, 10, 62, 63, 64, 65, 254, 255]))
     W = 1 if kind == 'tbuild' else draw(st.integers(1, 3))
     first = draw(st.integers(1, 12))
     rest = draw(st.integers(0, 12))
@@ -462,8 +460,18 @@ def unit_family(ctx, kinds, precision, tdtypes, n):
         hyp.run(ctx, cases(kind, precision, tdtypes), check_case, n, shrink_budget=40 if ctx.tier == 'quick' else 300, seed_extra=i)
 
 
+AUTO_MAX = [0, 1, 7, 8, 9, 10, 62, 63, 64, 65, 254, 255]
+
+
 def unit_auto(ctx, precision, tdtypes, n):
-    hyp.run(ctx, auto_cases(precision, tdtypes), check_auto, n, shrink_budget=40 if ctx.tier == 'quick' else 300)
+    # every (kind, first-batch maximum) combination is visited; data inside each is generated
+    i = 0
+    for kind in ['anova', 'nicv', 'snr', 'mia', 'tbuild']:
+        for amax in AUTO_MAX:
+            i += 1
+            hyp.run(ctx, auto_cases(precision, tdtypes, kind, amax), check_auto, n, shrink_budget=40 if ctx.tier == 'quick' else 300, seed_extra=i)
+            if ctx.violations:
+                return
 
 
 def units(tier):
@@ -482,7 +490,7 @@ def units(tier):
         us.append({'name': 'tdpa-%s-%s' % (precision, '+'.join(tdts)), 'fn': 'unit_relations', 'kwargs': {'kind': 'tdpa', 'precision': precision, 'tdtypes': tdts, 'n': 2 * n}})
     us.append({'name': 'tstatic-float64', 'fn': 'unit_relations', 'kwargs': {'kind': 'tstatic', 'precision': 'float64', 'tdtypes': ['uint8', 'float64'], 'n': 2 * n}})
     for precision, tdts in [('float32', ['uint8', 'float32']), ('float64', ['int16', 'float64'])]:
-        us.append({'name': 'auto-%s' % precision, 'fn': 'unit_auto', 'kwargs': {'precision': precision, 'tdtypes': tdts, 'n': 3 * n}})
+        us.append({'name': 'auto-%s' % precision, 'fn': 'unit_auto', 'kwargs': {'precision': precision, 'tdtypes': tdts, 'n': 1 if q else 10}})
     return us
 
 
